@@ -4,12 +4,16 @@ use crate::opclass::*;
 
 pub fn tracker(comp: &str) -> Option<Box<dyn Tracker>> {
     Some(match comp {
-        "keyupd" => Box::new(KeyUpd),
+        "keyupd" => Box::new(KeyUpd::default()),
         _ => return None,
     })
 }
 
-struct KeyUpd;
+#[derive(Default)]
+struct KeyUpd {
+    /// next packet number of the connection as last printed (`npn=`)
+    npn: u64,
+}
 
 impl Tracker for KeyUpd {
     fn classify(&mut self, w: &[&str]) -> Class {
@@ -26,6 +30,9 @@ impl Tracker for KeyUpd {
                     && (w[4] == "forged" || n(w, 4).is_some_and(|g| g < 1 << 32));
                 when(ok, Class::Peer)
             }
+            // an ACK frame of the peer for a packet that was really sent (an ACK of an unsent packet is answered with
+            // PROTOCOL_VIOLATION by the frame handler, which this component does not drive)
+            "ackd" => when(w.len() == 3 && n(w, 2).is_some_and(|pn| pn < self.npn), Class::Peer),
             // Connection::force_key_update (public API, any state), Connection::ping + poll_transmit,
             // Connection::handle_timeout at any instant not before the previous one
             "update" | "send" | "timeout" => when(w.len() == 2, Class::Local),
@@ -33,6 +40,11 @@ impl Tracker for KeyUpd {
             // pure observations
             "view" | "env" => Class::Probe,
             _ => Class::Contract,
+        }
+    }
+    fn observe(&mut self, _w: &[&str], resp: &str) {
+        if let Some(x) = resp.split_ascii_whitespace().find_map(|t| t.strip_prefix("npn=")).and_then(|x| x.parse().ok()) {
+            self.npn = x;
         }
     }
     fn state<'a>(&self, _w: &[&str], resp: &'a str) -> StateObs<'a> {
